@@ -131,8 +131,8 @@ def _sources(task):
             for parts in itertools.product(fr, repeat=n):
                 yield fr[first] + "".join(parts)
     elif kind == "special":
-        _, _, part, nparts = task
-        for i, s in enumerate(g.special_sources(envname.startswith("ext"))):
+        _, _, part, nparts, families, thin = task
+        for i, s in enumerate(g.special_sources(envname.startswith("ext"), families, thin)):
             if i % nparts == part:
                 yield _adapt(s, c)
     elif kind == "gen":
@@ -429,10 +429,14 @@ def run(ctx, res):
         nfr = len(g.fragments(g.lex_cfg(name)))
         tasks.append(("exh", name, exh, None))
         tasks += [("exh", name, exh, i) for i in range(nfr)]
-    nparts = 4
-    # names behave alike under every delimiter set: the quick tier spells them in four environments only
+    nparts = 8
+    # names behave alike under every delimiter set: the quick tier spells them in four environments only, runs the nesting /
+    # empty-form / compatibility-identifier families in two of them and keeps every 4th of their deeper nests (rotated by seed;
+    # all depth-1 positions always)
     for name in (["default", "async", "sandboxed", "ext"] if ctx.quick else envs):
-        tasks += [("special", name, i, nparts) for i in range(nparts)]
+        fam = (name in ("default", "ext")) if ctx.quick else True
+        thin = (4, ctx.seed) if ctx.quick else None
+        tasks += [("special", name, i, nparts, fam, thin) for i in range(nparts)]
     chunks, per_chunk, nmut = ctx.pick((4, 60, 3), (16, 250, 4))
     if suspicious:
         chunks *= 4
